@@ -227,6 +227,13 @@ func hazards(v M) string {
 				if dupLabels(in.([]any)) {
 					h["dup-param-label"] = true
 				}
+				for _, p := range in.([]any) {
+					walkType(sub(rec(p), "t"), func(x M) {
+						if x["k"] == "rec" {
+							h["rec-in-initializer"] = true
+						}
+					})
+				}
 			}
 			if t["ck"] == "Attachment" {
 				h["attachment-type"] = true
@@ -695,7 +702,7 @@ func roundtripOne(c rtCase, st *rtStats) (fails []failure, encs []M) {
 		if cv != nil {
 			atomic.AddInt64(&st.ccfRT, 1)
 			cm := projMode{dictSet: true, collapse: true}
-			if got, want := canonJSON(projValue(cv, cm)), canonJSON(normAbs(c.CC, cm)); got != want {
+			if got, want := canonJSON(normRec(projValue(cv, cm))), canonJSON(normRec(normAbs(c.CC, cm))); got != want {
 				fail("C42", "ccf-roundtrip", fmt.Sprintf("CCF-decoded value differs from CcfView(v)\n spec: %s\n impl: %s", want, got), nil)
 			} else {
 				// same shape: the repo's own type equality on every static and embedded type
@@ -746,7 +753,7 @@ func roundtripOne(c rtCase, st *rtStats) (fails []failure, encs []M) {
 				atomic.AddInt64(&st.detStrict, 1)
 				sm := projMode{dictSet: true, collapse: true, erase: true, nominal: true}
 				// deterministic mode may reorder composite fields / set members; compare modulo that order
-				if got, want := canonSorted(projValue(sv, sm)), canonSorted(normAbs(c.X, sm)); got != want {
+				if got, want := canonJSON(normRec(sortFields(projValue(sv, sm)))), canonJSON(normRec(sortFields(normAbs(c.X, sm)))); got != want {
 					fail("C42", "ccf-det-roundtrip", fmt.Sprintf("deterministic encoding decodes to a different value\n spec: %s\n impl: %s", want, got), nil)
 				}
 			}
@@ -765,7 +772,7 @@ func roundtripOne(c rtCase, st *rtStats) (fails []failure, encs []M) {
 	default:
 		atomic.AddInt64(&st.cross, 1)
 		xm := projMode{erase: true, dictSet: true, collapse: true, nominal: true}
-		a, b, want := canonJSON(projValue(dv, xm)), canonJSON(projValue(cv, xm)), canonJSON(normAbs(c.X, xm))
+		a, b, want := canonJSON(normRec(projValue(dv, xm))), canonJSON(normRec(projValue(cv, xm))), canonJSON(normRec(normAbs(c.X, xm)))
 		if a != b || a != want {
 			fail("C43", "cross-value", fmt.Sprintf("decoded values differ modulo Erase\n spec: %s\n json: %s\n ccf:  %s", want, a, b), nil)
 		} else if !hasDict(c.V) {
